@@ -261,6 +261,7 @@ type dispatcher struct {
 	sw        *ast.SwitchStmt
 	pduVar    types.Object
 	undecided []string
+	table     *ssa.Lookup // the dispatcher looks the constructor up in a constant table (map from command id to func() PDU)
 }
 
 func findDispatchers(c *core.Ctx, byNamed map[*types.TypeName]*c10type) []*dispatcher {
@@ -308,7 +309,93 @@ func findDispatchers(c *core.Ctx, byNamed map[*types.TypeName]*c10type) []*dispa
 	return out
 }
 
+// ctorTable: fn looks a constructor up in a package-level constant table map[id]func() PDU; every entry returns a
+// freshly allocated PDU type of the package on all its paths. Result: the lookup and id -> type.
+func ctorTable(fn *ssa.Function, byNamed map[*types.TypeName]*c10type) (*ssa.Lookup, map[uint64]*types.TypeName) {
+	for _, b := range fn.Blocks {
+		for _, ins := range b.Instrs {
+			lk, ok := ins.(*ssa.Lookup)
+			if !ok {
+				continue
+			}
+			ld, ok := lk.X.(*ssa.UnOp)
+			if !ok || ld.Op != token.MUL {
+				continue
+			}
+			g, ok := ld.X.(*ssa.Global)
+			if !ok {
+				continue
+			}
+			tbl, ok := constMapTable(fn.Prog, g)
+			if !ok || len(tbl) == 0 {
+				continue
+			}
+			out := map[uint64]*types.TypeName{}
+			good := true
+			for k, v := range tbl {
+				var cf *ssa.Function
+				switch x := v.(type) {
+				case *ssa.Function:
+					cf = x
+				case *ssa.MakeClosure:
+					if len(x.Bindings) == 0 {
+						cf, _ = x.Fn.(*ssa.Function)
+					}
+				}
+				if cf == nil || len(cf.Params) != 0 || len(cf.Blocks) == 0 {
+					good = false
+					break
+				}
+				var tn *types.TypeName
+				for _, cb := range cf.Blocks {
+					ret, isR := cb.Instrs[len(cb.Instrs)-1].(*ssa.Return)
+					if !isR {
+						continue
+					}
+					if len(ret.Results) != 1 {
+						good = false
+						break
+					}
+					mi, isMI := ret.Results[0].(*ssa.MakeInterface)
+					if !isMI {
+						good = false
+						break
+					}
+					al, isAl := mi.X.(*ssa.Alloc)
+					pt, isPt := mi.X.Type().(*types.Pointer)
+					if !isAl || !al.Heap || !isPt {
+						good = false
+						break
+					}
+					nt, isN := pt.Elem().(*types.Named)
+					if !isN || byNamed[nt.Obj()] == nil || (tn != nil && tn != nt.Obj()) {
+						good = false
+						break
+					}
+					tn = nt.Obj()
+				}
+				if !good || tn == nil || k < 0 {
+					good = false
+					break
+				}
+				out[uint64(k)] = tn
+			}
+			if good {
+				return lk, out
+			}
+		}
+	}
+	return nil, nil
+}
+
 func ssaDispatchTable(c *core.Ctx, fn *ssa.Function, d *dispatcher, byNamed map[*types.TypeName]*c10type) {
+	if lk, tbl := ctorTable(fn, byNamed); lk != nil {
+		d.table = lk
+		for k, tn := range tbl {
+			d.cases[k] = tn
+		}
+		return
+	}
 	inline := func(call *ssa.Call, callee *ssa.Function) bool {
 		return callee.Pkg == fn.Pkg && callee.Object() != nil && !callee.Object().Exported() && len(callee.Blocks) > 0
 	}
@@ -646,7 +733,32 @@ func dispatchShape(c *core.Ctx, d *dispatcher, name string) {
 		case !pduNil && !errNil:
 			problems = append(problems, "a path returns a PDU together with a non-nil error")
 		case !pduNil:
-			if _, ok := r0.(*ssa.MakeInterface); !ok {
+			if call, isC := r0.(*ssa.Call); isC && d.table != nil && call.Call.StaticCallee() == nil && !call.Call.IsInvoke() {
+				// pdu := table[id](): fresh by construction of the table; the entry must have been found on this path
+				ex, isE := res(call.Call.Value).(*ssa.Extract)
+				fromTable := isE && ex.Index == 0 && ex.Tuple == ssa.Value(d.table)
+				if !fromTable {
+					if lk2, isLk := res(call.Call.Value).(*ssa.Lookup); isLk && lk2 == d.table {
+						fromTable = true
+					}
+				}
+				found := false
+				for _, e := range p.Events {
+					if e.Kind != paths.EvBranch {
+						continue
+					}
+					if okx, isOk := e.Resolve(e.Cond).(*ssa.Extract); isOk && okx.Index == 1 && okx.Tuple == ssa.Value(d.table) && e.Taken {
+						found = true
+					}
+					if subj, neq, isNil := nilTest(e.Cond); isNil && neq == e.Taken && e.Resolve(subj) == res(call.Call.Value) {
+						found = true
+					}
+				}
+				if !fromTable || !found {
+					problems = append(problems, "a PDU is built by calling a table entry that was not found to exist on that path (an unknown command id calls a nil constructor)")
+					continue
+				}
+			} else if _, ok := r0.(*ssa.MakeInterface); !ok {
 				problems = append(problems, "a path returns a PDU value that is not a freshly built PDU ("+role(plain, r0)+"): an unknown command id may yield a nil PDU with a nil error")
 				continue
 			}
